@@ -21,9 +21,9 @@
 (*                 parent whose *current best action* lists the member as a successor;   *)
 (*                 the values on Z become the optimal values of the sub-MDP on Z in      *)
 (*                 which every other node is a pseudo-terminal worth its current value   *)
-(*                 and absorbing states are worth 0 (exact rationals, policy enumeration *)
-(*                 on Z + adjugate solve); best action = first maximiser in the node's   *)
-(*                 own action order                                                      *)
+(*                 and absorbing states are worth 0 (exact rationals: policy iteration   *)
+(*                 with adjugate solves, ending with the optimality certificate          *)
+(*                 V >= Q on Z); best action = first maximiser in the node's own order   *)
 (*       Terminate the solution graph has no unexpanded node                             *)
 (*     Absorbing states are ordinary nodes, exactly as in the code: they start with the  *)
 (*     heuristic value, are tips until expanded through their ghost dynamics, and only a *)
@@ -198,24 +198,37 @@ QNum(m, nd, Z, zna, L, det, x, s, a) ==
                + m.GN * (IF IsAbs(m, t) THEN 0
                          ELSE IF t \in Z THEN x[IndexOf(zna, t)]
                          ELSE nd[t].val[1] * (L \div nd[t].val[2]) * det))], m.N)
-\* the revision: [ok, val (St -> new value on Z), mx (Z -> set of exactly maximising actions)]
+\* exact evaluation of one policy of the sub-MDP: [ok (non-singular), det, x, q (Q numerators per member / action)]
+EvalPol(m, nd, Z, zna, L, pi) ==
+  LET k  == Len(zna)
+      sv == SubSolve(m, nd, Z, zna, L, pi)
+  IN IF sv[1] = 0 THEN [ok |-> FALSE, det |-> 0, x |-> <<>>, q |-> <<>>]
+     ELSE [ok |-> TRUE, det |-> sv[1], x |-> sv[2],
+           q |-> TLCEval([i \in 1..k |-> [a \in Avail(m, zna[i]) |-> QNum(m, nd, Z, zna, L, sv[1], sv[2], zna[i], a)]])]
+\* policy iteration on the ancestor sub-MDP, in exact arithmetic: switch only to strictly better actions, so it
+\* stops (after at most |policies| evaluations) exactly at a policy whose own values satisfy the optimality
+\* equation of the sub-MDP: V(s) >= Q(s, a) for every member s and available a.  `optimal` is that certificate.
+RECURSIVE PIter(_, _, _, _, _, _, _)
+PIter(m, nd, Z, zna, L, pi, fuel) ==
+  LET k == Len(zna)
+      r == TLCEval(EvalPol(m, nd, Z, zna, L, pi))
+  IN IF ~r.ok \/ fuel = 0 THEN [r EXCEPT !.ok = FALSE]
+     ELSE LET better(i) == {a \in Avail(m, zna[i]) : r.q[i][a] > r.x[i] * m.PD * m.GD}
+              pi2 == [s \in Range(zna) |->
+                        LET i == IndexOf(zna, s) IN
+                        IF better(i) = {} THEN pi[s]
+                        ELSE CHOOSE a \in better(i) : \A c \in better(i) : r.q[i][a] >= r.q[i][c]]
+          IN IF pi2 = pi THEN r ELSE PIter(m, nd, Z, zna, L, pi2, fuel - 1)
+\* the revision: [ok, val (Z -> new value), mx (Z -> set of exactly maximising actions)]
 DP(m, nd, Z) ==
   LET zna  == SeqOfSet({s \in Z : ~IsAbs(m, s)}, m.N)
       k    == Len(zna)
       L    == IF k = 0 THEN 1 ELSE LcmSet({nd[t].val[2] : t \in Boundary(m, nd, Z)})
-      pols == {pi \in [Range(zna) -> Ac(m)] : \A s \in Range(zna) : pi[s] \in Avail(m, s)}
-      eval(pi) == LET sv == SubSolve(m, nd, Z, zna, L, pi) IN
-                  IF sv[1] = 0 THEN [ok |-> FALSE, det |-> 0, x |-> <<>>, q |-> <<>>]
-                  ELSE LET q == TLCEval([i \in 1..k |-> [a \in Avail(m, zna[i]) |->
-                                   QNum(m, nd, Z, zna, L, sv[1], sv[2], zna[i], a)]])
-                       IN [ok |-> \A i \in 1..k : \A a \in Avail(m, zna[i]) : sv[2][i] * m.PD * m.GD >= q[i][a],
-                           det |-> sv[1], x |-> sv[2], q |-> q]
-      evs  == TLCEval({eval(pi) : pi \in pols})
-      good == {r \in evs : r.ok}
+      r    == PIter(m, nd, Z, zna, L, [s \in Range(zna) |-> nd[s].opt], 40)
+      optimal == \A i \in 1..k : \A a \in Avail(m, zna[i]) : r.x[i] * m.PD * m.GD >= r.q[i][a]
   IN IF k = 0 THEN [ok |-> TRUE, val |-> [s \in Z |-> <<0, 1>>], mx |-> [s \in Z |-> Avail(m, s)]]
-     ELSE IF good = {} THEN [ok |-> FALSE, val |-> <<>>, mx |-> <<>>]
-     ELSE LET r == CHOOSE g \in good : TRUE IN
-          [ok  |-> TRUE,
+     ELSE IF ~r.ok \/ ~optimal THEN [ok |-> FALSE, val |-> <<>>, mx |-> <<>>]
+     ELSE [ok  |-> TRUE,
            val |-> [s \in Z |-> IF IsAbs(m, s) THEN <<0, 1>> ELSE Norm(r.x[IndexOf(zna, s)], r.det * L)],
            mx  |-> [s \in Z |-> IF IsAbs(m, s) THEN Avail(m, s)
                                 ELSE LET i == IndexOf(zna, s)
@@ -246,7 +259,9 @@ Init ==
   /\ inits = <<>>
   /\ nodes = [s \in St(Batch[iid]) |-> Absent(Batch[iid])]
   /\ cur = 0 /\ lastZ = {} /\ l = 0 /\ hist = <<>> /\ note = <<>>
-  /\ vstar = OptimalValue(Batch[iid])
+  \* trace mode: V* was computed by the oracle run of this module on the same instance; it is re-certified
+  \* by the optimality equation (InstanceOK) instead of being enumerated again for every recorded run
+  /\ vstar = IF Mode = "trace" THEN [s \in St(Batch[iid]) |-> RNorm(Batch[iid].vs[s])] ELSE OptimalValue(Batch[iid])
 
 OracleStep ==
   /\ Mode = "oracle" /\ phase = "init" /\ phase' = "done"
@@ -389,11 +404,15 @@ Emit ==
 Machine == Mode \in {"mc", "trace"}
 Running == Machine /\ phase \in {"loop", "revise", "done"}
 \* instance filter: preconditions of the statement, checked by TLC so a generator bug is never a verdict
+\* V is the solution of the optimality equation (unique when discounted or proper)
+BellmanCertified(m, V) ==
+  \A s \in St(m) : IF s \in ExplAbs(m) THEN V[s] = <<0, 1>>
+                    ELSE IsFin(V[s]) /\ V[s] = RMaxSet({QFromV(m, V, s, a) : a \in Avail(m, s)})
 InstanceOK ==
   phase = "init" =>
      /\ WellFormed(M) /\ NNonAbs(M) <= 3
      /\ \A s \in St(M) : Avail(M, s) # {}
-     /\ Discounted(M) \/ Proper(M)
+     /\ IF Mode = "trace" THEN BellmanCertified(M, vstar) ELSE (Discounted(M) \/ Proper(M))
      /\ Machine => \A s \in St(M) : IsFin(cfg.H[s]) /\ ~RLess(RNorm(cfg.H[s]), vstar[s])     \* admissible heuristic
 \* (P1) every value held for an explored state is an upper bound on that state's optimal value
 Admissible == Running => \A s \in NodeSet(nodes) : ~RLess(nodes[s].val, vstar[s])
